@@ -163,7 +163,8 @@ def run(chk):
             for k2, v2 in d.items():
                 out[k2] = float(v2)
             for k2 in ('Acent', 'Asat', 'Bcent', 'Bsat', 'Ccent', 'Csat', 'ic'):
-                out.setdefault(k2, 1.0 if k2 == 'ic' else 0.0) if hasattr(out, 'setdefault') else None
+                if k2 not in out:
+                    out[k2] = 1.0 if k2 == 'ic' else 0.0
             return out
         L, E, Qd = tdict(dict(hc2.LRG, ic=1.0)), tdict(dict(hc2.ELG, ic=1.0)), tdict(dict(hc2.QSO, ic=1.0))
         args = lambda: (halos['hpos'].copy(), halos['hvel'].copy(), halos['hmass'].copy(), halos['hid'].copy(), halos['hmultis'].copy(), halos['hrandoms'].copy(),
@@ -180,7 +181,12 @@ def run(chk):
                             x[...] = -7 if x.dtype.kind in 'iu' else np.nan
                         return sched.Shared(x, nm, sc)
                     return x
-                fn = sched.threaded_source(gen_cent, sc, share=shared_names, overrides={'numba': NumbaStub()})
+                class PyDict:
+                    """numba.typed.Dict stand-in for the interpreted run (a typed dict cannot hold the shared-array proxies)"""
+                    @staticmethod
+                    def empty(key_type=None, value_type=None):
+                        return {}
+                fn = sched.threaded_source(gen_cent, sc, share=shared_names, overrides={'numba': NumbaStub(), 'Dict': PyDict})
                 fn.__globals__['__par'] = hook(sc.par)
                 fn.__globals__['__share'] = share
                 return lambda: fn(*args())
